@@ -3,7 +3,9 @@ and writes the witness workspace.  See DESIGN.md 3.3."""
 import itertools, json, os, random
 from . import decls as D
 
-CORPUS_VERSION = 7
+I64 = (1 << 63) - 1
+
+CORPUS_VERSION = 8
 
 AS = ['match', 'table', None, 'auto']  # None = parameter omitted (auto); 'auto' = written explicitly
 IT_G = ['range', 'next_and_back', 'table', 'table_inline', None, 'auto']
@@ -41,7 +43,7 @@ def build(tier, seed):
                 variants += [('shuf', 'explicit', 'hostile'), ('desc', 'fancy', 'dup'), ('runshuf', 'explicit', 'swap'), ('asc', 'fancy', 'default'), ('shuf', 'explicit', 'idents'), ('asc', 'explicit', 'prefix')]
             else:
                 variants += [('desc', 'explicit', 'default')]
-            light = label.startswith(('gapless_end_u', 'gapless_end_i', 'gapless_cross_', 'gapless_start_i', 'holes_at_', 'holes_span_mod'))
+            light = label.startswith(('gapless_end_u', 'gapless_end_i', 'gapless_cross_', 'gapless_start_i', 'holes_at_', 'holes_span_mod', 'gapless_256', 'gapless_255', 'gapless_128', 'holes_256_variants'))
             if light:
                 # boundary classes of narrower widths: many shapes, so fewer declaration variants each
                 variants = [variants[(k + j) % len(variants)] for j in range(1 if tier == 'quick' else 2)]
@@ -178,8 +180,9 @@ def build(tier, seed):
                     for f in D.HAS_NAME_VIS:
                         p = {}
                         fpv = pv
-                        if f in ('iter', 'names', 'range'):
-                            # a struct more visible than the enum it yields is a user error (E0446), not a supported configuration
+                        if f in ('iter', 'range'):
+                            # an iterator struct more visible than the enum it yields is a user error (E0446), not a supported configuration
+                            # (the names struct yields &str: there a wider visibility than the enum's is legal and must be honoured)
                             if pv == 'pub' and evis != 'pub':
                                 fpv = None
                             if pv == 'pub(crate)' and evis not in ('pub', 'pub(crate)', 'pub(super)'):
@@ -195,6 +198,54 @@ def build(tier, seed):
                         feats = D.ALL_FEATURES if it != 'table_inline' else [x for x in D.ALL_FEATURES if x != 'range']
                         add(d, D.config(feats, {'iter': it, 'as_str': 'table'}, params, split=2), kind='params',
                             classes=['evis=' + evis, 'vis=' + str(pv), 'named=' + str(named), 'iter=' + it])
+    # every feature its own visibility: all ordered pairs (vis of f, vis of g) occur, in particular iter narrower than range,
+    # helpers narrower / wider than their users
+    VIS3 = ['', 'pub(crate)', 'pub', None]
+    for r, label, vals in [('i16', 'holes2', [0, 1, 9]), ('u8', 'gapless0', [0, 1, 2, 3])]:
+        d = D.make_decl(r, label, vals, 'asc', 'explicit', 'default', rnd, vis='pub')
+        for rot in range(4):
+            for stride in (1, 3):
+                params = {f: ({} if VIS3[(rot + stride * i) % 4] is None else {'vis': VIS3[(rot + stride * i) % 4]}) for i, f in enumerate(D.HAS_NAME_VIS)}
+                for it in (['range', 'table'] if d['gapless'] else ['next_and_back', 'table']):
+                    add(d, D.config(D.ALL_FEATURES, {'iter': it}, params, split=1), kind='vismix', classes=['rot=%d/%d' % (rot, stride), 'iter=' + it])
+        # iter private, range at the enum's visibility / explicit, and the reverse
+        for iv, rv in [('', None), ('', 'pub'), ('', 'pub(crate)'), ('pub(crate)', 'pub'), ('pub(crate)', None), ('pub', ''), (None, '')]:
+            params = {'iter': {} if iv is None else {'vis': iv}, 'range': {} if rv is None else {'vis': rv}}
+            add(d, D.config(['iter', 'range'], {'iter': 'table'}, params), kind='vismix', classes=['iter=%s' % iv, 'range=%s' % rv])
+            add(d, D.config(['iter', 'range', 'names', 'next', 'MIN'], {}, params), kind='vismix', classes=['iter=%s' % iv, 'range=%s' % rv, 'auto'])
+    # variants named like the derive's default item names (MIN / MAX are not requested here: a constant and a variant of
+    # one name cannot both be reached through Self::NAME, that collision is the user's)
+    for r, label, vals in [('i16', 'gapless0', [0, 1, 2, 3, 4, 5]), ('u8', 'holes2', [0, 1, 2, 9, 10, 20]), ('i32', 'gapless_neg', [-2, -1, 0, 1])]:
+        d = D.make_decl(r, label, vals, 'shuf', 'explicit', 'featnames', rnd, vis='pub')
+        gap = d['gapless']
+        for (a, f, t, it) in [('table', 'table', 'table', 'next_and_back'), ('match', 'match', 'match', 'table'), (None, None, None, None), ('match', 'table', 'match', 'range' if gap else 'table_inline')]:
+            c = D.full_config(a, f, t, it, True, split=1, drop=('MIN', 'MAX'))
+            add(d, c, kind='featnames')
+        for fs in (['next'], ['next_back'], ['iter'], ['iter', 'range'], ['try_from'], ['names'], ['next', 'next_back', 'iter']):
+            add(d, D.config(fs), kind='featnames', classes=['+'.join(fs)])
+    # enums named like prelude / core items (the derive names the enum inside bodies that import core traits)
+    for en in ['Iterator', 'Option', 'Some', 'None', 'Result', 'Ok', 'Err', 'FromStr', 'TryFrom', 'From', 'Into', 'Copy', 'Clone', 'Debug', 'Display', 'DoubleEndedIterator',
+               'ExactSizeIterator', 'FusedIterator', 'IntoIterator', 'RangeInclusive', 'Formatter', 'Self_', 'core', 'std', 'transmute', 'Sized', 'Default', 'String', 'Vec', 'Box']:
+        for r, label, vals in [('i8', 'holes_neg_later', [-10, -9, -5, -4, 3]), ('u16', 'gapless_pos', [5, 6, 7])]:
+            d = D.make_decl(r, label, vals, 'shuf', 'explicit', 'default', rnd, vis='pub')
+            d['enum_name'] = en
+            gap = d['gapless']
+            cfgsn = [(None, None, None, None), ('table', 'match', 'table', 'table'), ('match', 'table', 'match', 'next_and_back')] + ([('table', 'table', 'table', 'range')] if gap else [('table', 'table', 'table', 'table_inline')])
+            if tier == 'quick' and en not in ('Iterator', 'Option', 'Result', 'FromStr', 'TryFrom'):
+                cfgsn = cfgsn[:1] + cfgsn[3:]
+            for (a, f, t, it) in cfgsn:
+                add(d, D.full_config(a, f, t, it, True, split=1), kind='enumname', classes=['enum=' + en])
+    # iterator structs named (through struct_name) like items the constructors use from core
+    for sn in ['Iterator', 'IntoIterator', 'Some', 'None', 'Option', 'Ok', 'Err', 'Result', 'DoubleEndedIterator', 'Copied', 'Map', 'RangeInclusive', 'Iter', 'IntoIter', 'MaybeUninit']:
+        for r, label, vals in [('i8', 'holes_neg_later', [-10, -9, -5, -4, 3]), ('u16', 'gapless_pos', [5, 6, 7])]:
+            d = D.make_decl(r, label, vals, 'asc', 'explicit', 'default', rnd, vis='pub')
+            gap = d['gapless']
+            for it in ([None, 'range', 'table', 'next_and_back', 'table_inline'] if gap else [None, 'table', 'next_and_back', 'table_inline']):
+                if tier == 'quick' and sn not in ('Iterator', 'IntoIterator', 'Some', 'Option') and it in ('table', 'next_and_back'):
+                    continue
+                feats = ['iter', 'names'] + (['range'] if it != 'table_inline' else [])
+                add(d, D.config(feats, {'iter': it}, {'iter': {'struct_name': sn}, 'names': {'struct_name': sn + 'N'}}), kind='structname', classes=['struct=' + sn, 'iter=' + str(it)])
+            add(d, D.config(['names', 'as_str'], {}, {'names': {'struct_name': sn}}), kind='structname', classes=['struct=' + sn, 'names'])
     # ---- families for the metamorphic properties (C18, C10 split): members differ in exactly one dimension
     fam = [0]
     def family(kind, members):
@@ -228,14 +279,15 @@ def build(tier, seed):
                     d = dict(base); d['variants'] = [base['variants'][i] for i in perm]; d['order'] = 'perm%d' % oi
                     members.append(('order=%s' % (list(perm) if n <= 6 else oi), d, mk(d['gapless'])))
             family('perm', members)
-    # repr families: every fixed-width repr that can hold the values (pointer-sized reprs are covered by the item rules only)
+    # repr families: every repr that can hold the values (pointer-sized reprs are compared against the 64-bit member of their signedness)
     for label, vals in [('holes_neg_later', [-10, -9, -5, -4, 3]), ('gapless0', [0, 1, 2, 3]), ('holes_mixed', [1, 2, 3, 4, 10, 20, 21, 30, 31, 32, 33, 34, 35]),
-                        ('gapless_130', list(range(-100, 30)) ), ('gapless_pos200', list(range(0, 200)))]:
+                        ('gapless_130', list(range(-100, 30)) ), ('gapless_pos200', list(range(0, 200))),
+                        ('holes_pos_wide', [0, 1, (1 << 32), (1 << 32) + 1, 1 << 40, I64]), ('holes_neg_wide', [-(1 << 63), -(1 << 40), -1, 0, (1 << 33), (1 << 33) + 1]),
+                        ('gapless_above_u32', list(range((1 << 32) + 5, (1 << 32) + 9))), ('gapless_below_i32', list(range(-(1 << 31) - 9, -(1 << 31) - 5))),
+                        ('gapless_above_u16', list(range(65536, 65540))), ('holes_above_u8', [256, 257, 300])]:
         for cname, mk in cfgs[:2]:
             members = []
             for r in D.REPRS:
-                if r.endswith('size'):
-                    continue
                 lo, hi = D.dom_bounds(r)
                 if vals[0] < lo or vals[-1] > hi:
                     continue
